@@ -48,7 +48,8 @@ let () =
      while true do
        let line = input_line stdin in
        match split_ws line with
-       | "#" :: _ -> record := []; Hashtbl.reset table; Hashtbl.reset full; pr line
+       | "#" :: _ -> record := []; Hashtbl.reset table; Hashtbl.reset full;
+         print_string (Buffer.contents out); Buffer.clear out; flush stdout; pr line
        | "S" :: max :: fmt :: args ->
          Hashtbl.reset table; Hashtbl.reset full;
          let mx = z_of_string max in
